@@ -242,7 +242,19 @@ var rootModes = []uint32{0o766, 0o755, 0o733}
 
 // actorSpecs returns the actors and their alphabets. The core alphabet is a
 // subset (fewer operands, fewer calls) explored one level deeper.
-func actorSpecs(tier string, core bool) []actorSpec {
+//
+// win: the operands are spelled for a Windows-typed system and the operands
+// that exist there only are added (ostype.go: winOperands).
+func actorSpecs(tier string, core, win bool) []actorSpec {
+	specs := linuxSpecs(tier, core)
+	if win {
+		winOperands(specs, core)
+	}
+
+	return specs
+}
+
+func linuxSpecs(tier string, core bool) []actorSpec {
 	if core {
 		ops := []string{"Mkdir", "WriteFile", "Remove", "RemoveAll", "Chmod", "Stat", "ReadDir", "ReadFile", "Chdir"}
 
@@ -328,6 +340,12 @@ func buildOps(specs []actorSpec) []op {
 
 		for _, p := range append(append([]string{}, sp.abs...), sp.rel...) {
 			for _, o := range single {
+				if o == "Chdir" && sp.kind == "parent" && hasVolume(p) && !strings.HasPrefix(p, winVolume) {
+					// the parent's working directory stays on the default volume
+					// (Windows-typed systems: a view is never rooted on another one)
+					continue
+				}
+
 				c := fsx.Call{Op: o, A: p}
 
 				switch o {
@@ -380,7 +398,9 @@ func buildOps(specs []actorSpec) []op {
 }
 
 // ---------------------------------------------------------------------------
-// path helpers ('/'-separated, Linux-typed MemFS only)
+// path helpers on the model's spelling: '/'-separated, which is the spelling of
+// the calls on a Linux-typed system; the calls of a Windows-typed system are
+// translated first (ostype.go: mp, osp)
 
 func isAbs(p string) bool { return strings.HasPrefix(p, "/") }
 
